@@ -10,6 +10,9 @@
       C11_f64_med_order      eval_f64 med / median does not depend on the order of the arguments (any values, NaN
                              included; any libm): the total_cmp key is injective
       C11_f64_med_member     without NaN and for an odd count the median is one of the arguments
+      C11_f64_med_sorted     without NaN the vector that med indexes (middle element, or mean of the two middle ones) is a
+                             permutation of the arguments sorted by numeric value: the total_cmp key orders the doubles
+                             numerically (smaller key => smaller or equal value, -0.0 before +0.0; infinities included)
       C11_f64_avg            avg is the left-to-right IEEE sum divided by the count (order matters only through
                              rounding, as the property allows)
       C11_number_min_max     eval_number min / max over finite arguments (Integers and Floats mixed): the result is one
@@ -19,7 +22,7 @@
                              multiset of arguments; for an odd count the VALUE of med does not depend on the order *)
 From Coq Require Import List ZArith Reals Bool Permutation Sorting.Sorted.
 From SC Require Import Base.Res Base.RustInt Base.F64 Base.Oracle Lang.Syntax Lang.Parser Eval.Common Eval.EvalI64 Eval.EvalF64 Gen.Tables
-  Spec.Surface Proofs.NoPanic Proofs.AggFacts Proofs.AggF64 Proofs.NumCompare Eval.EvalNum Base.Num.
+  Spec.Surface Proofs.NoPanic Proofs.AggFacts Proofs.KeyOrder Proofs.AggF64 Proofs.NumCompare Eval.EvalNum Base.Num.
 Import ListNotations.
 Local Open Scope Z_scope.
 
@@ -87,6 +90,19 @@ Theorem C11_f64_med_member :
     agg_f64 L AMed vs = Ok r -> In r vs.
 Proof. exact agg_f64_med_odd. Qed.
 Print Assumptions C11_f64_med_member.
+
+Theorem C11_f64_med_sorted :
+  (forall vs, existsb fis_nan vs = false -> Permutation vs (sortF vs) /\ StronglySorted num_le (sortF vs)) /\
+  (forall x y : f64, x <> Flocq.IEEE754.BinarySingleNaN.B754_nan -> y <> Flocq.IEEE754.BinarySingleNaN.B754_nan ->
+     (total_key x <= total_key y)%Z -> num_le x y) /\
+  (forall x y : f64, Flocq.IEEE754.BinarySingleNaN.Bcompare x y = Some Lt -> (total_key x < total_key y)%Z) /\
+  (forall (L : libm) vs, existsb fis_nan vs = false -> Nat.even (length vs) = false ->
+     agg_f64 L AMed vs = index (sortF vs) (Nat.div2 (length vs))).
+Proof.
+  split; [exact sortF_spec|]. split; [exact key_le_num|]. split; [exact num_lt_key|].
+  intros L vs Hn He. unfold agg_f64. now rewrite Hn, He.
+Qed.
+Print Assumptions C11_f64_med_sorted.
 
 Theorem C11_f64_avg :
   forall (L : libm) vs, agg_f64 L AAvg vs = Ok (fdiv (fold_left fadd vs fzero) (f64_of_Z (Z.of_nat (length vs)))).
